@@ -1001,6 +1001,14 @@ class ByDimensionsDatasetRecordStorageManagerUUID(DatasetRecordStorageManager):
             # Just in case an empty dataset collection is provided we want to
             # avoid adding dataset type to summary tables.
             return
+        if data_ids is not None and len(data_ids) != len(rows) and not timespan.isEmpty():
+            # Without a database exclusion constraint the overlap check below
+            # only sees rows that are already in the table, so datasets in
+            # this call that share a data ID must be rejected here.
+            raise ConflictingDefinitionError(
+                f"Validity range conflict certifying datasets of type {dataset_type.name!r} "
+                f"into {collection.name!r} for range {timespan}: multiple datasets with the same data ID."
+            )
         # Update the summary tables for this collection in case this is the
         # first time this dataset type or these governor values will be
         # inserted there.
